@@ -368,7 +368,20 @@ def _verify(ctx, pid, fams, limit, invariants):
         consts = {"MaxLen": maxlen, "Family": '"%s"' % fam, "EmitMod": mod, "EmitRes": ctx.seed % mod, "AsBuilt": asbuilt,
                   "Pol": "MCPol"}
         cfg = dict(constants={k: v for k, v in consts.items() if k != "Pol"}, invariants=invariants, constraints=["Emit"])
-        mc = _model_check_with_override(ctx, "MC_Verify", cfg, {"Pol": "MCPol"})
+        if fam == "long":
+            # long random histories: TLC in simulation mode, `mod` behaviours of depth maxlen; the refinement invariants are
+            # evaluated on every state visited, the complete histories are replayed
+            cfg["overrides"] = {"Pol": "MCPol"}
+            mc = run_tlc(ctx, "MC_Verify", cfg, workers=1, sim="num=%d" % mod, extra=["-depth", str(maxlen), "-seed", str(ctx.seed + 11)],
+                         timeout=7200)
+            if mc.violated:
+                raise Infra("specification error: %s violated on a long random history (see %s)" % (mc.violated, mc.out_path))
+            if mc.error:
+                raise Infra("TLC error in simulation: %s" % mc.error)
+            ctx.states += mc.distinct
+            ctx.transitions += mc.generated
+        else:
+            mc = _model_check_with_override(ctx, "MC_Verify", cfg, {"Pol": "MCPol"})
         pol = [r for r in mc.records if r.get("t") == "POL"][:1]
         scns = [r for r in mc.records if r.get("t") == "SCN"]
         if not pol or not scns:
@@ -402,13 +415,14 @@ def _verify(ctx, pid, fams, limit, invariants):
                                "by a root key, SSH-signed RSL entries and commits, real reference-authorization attestations",
                                "principals hold one key each (shared keys are C05's subject); policy entries are chain-valid "
                                "(broken chains are C02's subject)",
-                               "every log up to the family bound is model-checked; a seeded sample of them is replayed"])
+                               "every log up to the family bound is model-checked; a seeded sample of them is replayed; the 'long' family (C01) "
+                               "are random histories of 14 entries generated by TLC in simulation mode"])
 
 
 def c01(ctx):
     q = ctx.quick()
     fams = [("core", 5 if q else 6, 797 if q else 6397), ("recovery", 6 if q else 7, 61 if q else 211), ("global", 5 if q else 6, 97 if q else 397),
-            ("nopolicy", 3, 11), ("window", 9, 100003)]
+            ("nopolicy", 3, 11), ("window", 9, 100003), ("long", 14, 150 if q else 3000)]
     if not q:
         fams.append(("tworec", 9, 100003))
     return _verify(ctx, "C01", fams, 6000 if q else 60000, ["C01Refines"])
@@ -435,7 +449,7 @@ def c19(ctx):
 def c07(ctx):
     q = ctx.quick()
     fams = [("recovery", 6 if q else 7, 23 if q else 61), ("core", 5 if q else 6, 1597 if q else 9973), ("window", 9, 100003),
-            ("tworec", 9, 100003)]
+            ("tworec", 9, 100003), ("long", 14, 100 if q else 2000)]
     return _verify(ctx, "C07", fams, 8000 if q else 80000, ["C07Refines"])
 
 
